@@ -169,6 +169,9 @@ def gen_spec(seed, index, tier):
                    ops.choice(["full", "full", "light"])}
     nsteps = ops.randint(1, 6)
     same_path = ops.chance(0.6)
+    # a name that says nothing about the format: later exports overwrite files written in
+    # another format (and of another length) under the very same name
+    one_name = ops.chance(0.1)
     steps = []
     faults_left = ops.choice([1, 1, 2]) if faulty_run else 0
     for k in range(nsteps):
@@ -181,6 +184,8 @@ def gen_spec(seed, index, tier):
         fmt = fmt0 if (k == 0 and fmt0) else ops.choice(FORMATS)
         via = ops.choice(["io", "save", "save"])
         name = ("out.%s" % EXT[fmt]) if same_path else ("f%d.%s" % (k, EXT[fmt]))
+        if one_name:
+            name = "mesh.dat"
         if ops.chance(0.15):
             name = "sub/" + name  # directory need not exist: SimFS has no directories
             name = name.replace("sub/", "sub_")
